@@ -71,6 +71,24 @@ static void sec1(void) {
   for (size_t bin = 1; bin < MI_BIN_HUGE; bin++) for (long d = -1; d <= 1; d++) { size_t n = _mi_bin_size(bin) + (size_t)d; size_t p0 = 0; if (check_size(n, &p0, 0)) return; }
   for (int sh = 17; sh < 63; sh++) for (long d = -1; d <= 1; d++) { size_t n = ((size_t)1 << sh) + (size_t)d; size_t p0 = 0; if (check_size(n, &p0, 0)) return; }
   { size_t p0 = 0; if (check_size((size_t)PTRDIFF_MAX, &p0, 0)) return; }
+  /* large and huge requests (one block per page): the block that mi_malloc really hands out is at least the request, monotone in the
+     request and wastes at most 25% -- every multiple of 4 KiB from 128 KiB to 64 MiB, each with -1 / 0 / +1 (address space only) */
+  size_t prev_u = 0;
+  for (size_t k = 32; k <= 16384; k++) for (long d = -1; d <= 1; d++) {
+    size_t n = k * 4096 + (size_t)d;
+    CASE(1, n); VF_INC(nodes); VF_INC(transitions); VF_INC(checks);
+    size_t g = mi_good_size(n);
+    if (g < n) { VIOL("good-size-small", "mi_good_size(%zu) = %zu", n, g); return; }
+    void* p = mi_malloc(n);
+    if (p == NULL) { VIOL("null-result", "mi_malloc(%zu) = NULL", n); return; }
+    size_t u = mi_usable_size(p);
+    mi_free(p);
+    if (u < n) { VIOL("usable-too-small", "mi_usable_size(mi_malloc(%zu)) = %zu", n, u); return; }
+    if (u < prev_u) { VIOL("bin-not-monotone", "mi_malloc(%zu) got a block of %zu usable bytes but a smaller request got %zu", n, u, prev_u); return; }
+    if ((u - n) * 4 > u) { VIOL("fragmentation", "mi_malloc(%zu) got a block of %zu usable bytes: internal fragmentation above 25%%", n, u); return; }
+    prev_u = u;
+    VF_INC(nontrivial);
+  }
 }
 
 /* ---- sec 2 ------------------------------------------------------------------------------------------ */
